@@ -61,9 +61,9 @@ class LoopSpec:
     variant(ex, env): optional integer term that must decrease (while loops).
     """
 
-    def __init__(self, inv, havoc, modifies=(), ghost=None, variant=None, unroll=False):
+    def __init__(self, inv, havoc, modifies=(), ghost=None, variant=None, unroll=False, enter=None):
         self.inv, self.havoc, self.modifies = inv, havoc, tuple(modifies)
-        self.ghost, self.variant, self.unroll = ghost, variant, unroll
+        self.ghost, self.variant, self.unroll, self.enter = ghost, variant, unroll, enter
 
 
 def assigned_names(stmts):
@@ -511,6 +511,8 @@ class Executor:
             raise Unsupported(f"loop {ordinal} re-assigns {sorted(undeclared)}, not covered by the invariant's modifies", s)
         L = f"loop{ordinal}"
         zero = z3.IntVal(0)
+        if spec.enter:
+            spec.enter(self, env, seq)
         # 1. initiation
         self._pose_inv(spec, env, zero, f"{L}.init", s)
         branch = self.choice(2, L)
